@@ -122,7 +122,7 @@ import (
 )
 
 const (
-	stuck       = 8 * time.Second
+	stuck       = 20 * time.Second
 	earlyWindow = 5 * time.Millisecond
 	staleMetric = "libhoney_upstream_stale_dispatch_time"
 )
@@ -300,6 +300,11 @@ func decodeIDs(b []byte) ([]int64, error) {
 var zdec, _ = zstd.NewReader(nil)
 
 func (u *upstream) ServeHTTP(w http.ResponseWriter, req *http.Request) {
+	if req.Method != "POST" || !strings.HasPrefix(req.URL.Path, "/1/batch/") {
+		// not from the code under test (a probe or an OpAMP dial of another harness process that was given this port)
+		http.NotFound(w, req)
+		return
+	}
 	body, _ := io.ReadAll(req.Body)
 	if req.Header.Get("Content-Encoding") == "zstd" {
 		if dec, derr := zdec.DecodeAll(body, nil); derr == nil {
@@ -1195,7 +1200,7 @@ func (r *runner) stopCollector(mid bool) (early int, decs []int, pan string) {
 	}
 	// workersWG.Wait() has returned when Stop stops worker 0's decision cache (hook); should the
 	// code under test not do that any more, go on after a while
-	wait := time.After(100 * time.Millisecond)
+	wait := time.After(3 * time.Second)
 waitWorkers:
 	for {
 		select {
@@ -1276,7 +1281,7 @@ func (r *runner) stopTx() int {
 func (r *runner) leftover() string {
 	r.tr.CloseIdleConnections()
 	var names []string
-	deadline := time.Now().Add(time.Second)
+	deadline := time.Now().Add(3 * time.Second)
 	for {
 		names = names[:0]
 		seen := map[string]bool{}
@@ -1382,6 +1387,29 @@ type routerRunner struct {
 	z       bool
 	done    chan struct{}
 	agBase  int // agent loops left over from earlier cases of this process
+	dead    net.Listener
+}
+
+// deadEnd is an address nobody else can be given: a listener the harness holds for the life of the case,
+// which hangs up on whoever connects (the OpAMP server is unreachable).
+func (r *routerRunner) deadEnd() string {
+	if r.dead == nil {
+		l, err := net.Listen("tcp", "127.0.0.1:0")
+		if err != nil {
+			panic(err)
+		}
+		r.dead = l
+		go func() {
+			for {
+				c, err := l.Accept()
+				if err != nil {
+					return
+				}
+				c.Close()
+			}
+		}()
+	}
+	return r.dead.Addr().String()
 }
 
 func freePort() int {
@@ -1437,7 +1465,7 @@ func (r *routerRunner) start() {
 		DryRun:             r.dry,
 		StressRelief: config.StressReliefConfig{Mode: r.stress, ActivationLevel: 90, DeactivationLevel: 75, SamplingRate: 100,
 			MinimumActivationDuration: config.Duration(10 * time.Second)},
-		GetOpAmpConfigVal: config.OpAMPConfig{Enabled: r.opamp, Endpoint: fmt.Sprintf("ws://127.0.0.1:%d/v1/opamp", freePort())},
+		GetOpAmpConfigVal: config.OpAMPConfig{Enabled: r.opamp, Endpoint: "ws://" + r.deadEnd() + "/v1/opamp"},
 	}
 	r.done = make(chan struct{})
 	r.upTx = transmit.NewDirectTransmission(types.TransmitTypeUpstream, &http.Transport{}, 500, time.Hour, 5*time.Second, r.z, nil)
@@ -1484,9 +1512,11 @@ func (r *routerRunner) start() {
 		// the listener answers /alive: it is this router, not somebody else's port
 		resp, err := (&http.Client{Timeout: 500 * time.Millisecond, Transport: &http.Transport{DisableKeepAlives: true}}).Get("http://" + r.addr + "/version")
 		if err == nil {
+			b, _ := io.ReadAll(io.LimitReader(resp.Body, 4096))
 			resp.Body.Close()
-			if resp.StatusCode == 200 {
+			if resp.StatusCode == 200 && strings.Contains(string(b), "refinery") {
 				r.started = true
+				r.awaitAgent()
 				return
 			}
 		}
@@ -1565,9 +1595,28 @@ func agentLoops() int {
 	return n
 }
 
+// awaitAgent waits up to 5 s for the OpAMP agent's two loops when OpAMP is enabled and returns how many run.
+func (r *routerRunner) awaitAgent() int {
+	want := 0
+	if r.opamp {
+		want = 2
+	}
+	deadline := time.Now().Add(5 * time.Second)
+	for {
+		n := agentLoops() - r.agBase
+		if n >= want || time.Now().After(deadline) {
+			return n
+		}
+		time.Sleep(500 * time.Microsecond)
+	}
+}
+
 func (r *routerRunner) stopAll() string {
 	r.stopped = true
-	agBefore := agentLoops() - r.agBase
+	// the agent's goroutines start asynchronously: wait (bounded) for them before counting; the count is
+	// reported as an ext line only (informative, not compared with the model)
+	agBefore := r.awaitAgent()
+	kit.Ext("agent-loops-before-stop = %d", agBefore)
 	stopped := make(chan error, 1)
 	panicked := make(chan string, 1)
 	close(r.done) // main.go: tell the peers first (it then sleeps 2 x BatchTimeout, which the harness skips)
@@ -1622,7 +1671,7 @@ func (r *routerRunner) stopAll() string {
 	}
 	// the OpAMP agent's two loops: running before the shutdown iff OpAMP is enabled, gone afterwards (bounded wait)
 	agLeft := 0
-	deadline := time.Now().Add(250 * time.Millisecond)
+	deadline := time.Now().Add(5 * time.Second)
 	for {
 		agLeft = agentLoops() - r.agBase
 		if agLeft <= 0 || time.Now().After(deadline) {
@@ -1630,8 +1679,11 @@ func (r *routerRunner) stopAll() string {
 		}
 		time.Sleep(200 * time.Microsecond)
 	}
-	return fmt.Sprintf("err=%s coll=%d up=%d peer=%d ag=%d/%d st=%s u=%s", errS, coll, transmit.VerifShutdownStopped(r.upTx),
-		transmit.VerifShutdownStopped(r.peerTx), agBefore, agLeft, list(sts), r.up.take())
+	if agLeft < 0 {
+		agLeft = 0
+	}
+	return fmt.Sprintf("err=%s coll=%d up=%d peer=%d ag=%d st=%s u=%s", errS, coll, transmit.VerifShutdownStopped(r.upTx),
+		transmit.VerifShutdownStopped(r.peerTx), agLeft, list(sts), r.up.take())
 }
 
 // Close stops whatever an aborted stop sequence has left running.
@@ -1656,6 +1708,9 @@ func (r *routerRunner) Close() {
 	if transmit.VerifShutdownStopped(r.peerTx) == 0 {
 		try(func() { r.peerTx.Stop() })
 	}
+	if r.dead != nil {
+		r.dead.Close()
+	}
 	r.srv.Close()
 }
 
@@ -1676,6 +1731,10 @@ type rlUpstream struct {
 }
 
 func (u *rlUpstream) ServeHTTP(w http.ResponseWriter, req *http.Request) {
+	if req.Method != "POST" || !strings.HasPrefix(req.URL.Path, "/1/batch/") {
+		http.NotFound(w, req)
+		return
+	}
 	body, _ := io.ReadAll(req.Body)
 	ids, _ := decodeIDs(body)
 	ds := strings.TrimPrefix(req.URL.Path, "/1/batch/")
@@ -1844,19 +1903,24 @@ func (r *retryRunner) stop() {
 		r.dt.Stop()
 		r.tx.stopped = true
 	}()
-	for i := 0; i < 600; i++ {
+	// the clock keeps running for as long as Stop blocks (a sleep is relative to the instant it is
+	// registered, which may be late on a loaded machine): fast for 600 fake seconds, then 1 s per ms
+	deadline := time.Now().Add(stuck)
+	for i := 0; ; i++ {
 		select {
 		case <-done:
 			return
 		default:
 		}
+		if time.Now().After(deadline) {
+			panic("stuck waiting for DirectTransmission.Stop")
+		}
 		r.clock.Advance(time.Second)
-		time.Sleep(200 * time.Microsecond)
-	}
-	select {
-	case <-done:
-	case <-time.After(stuck):
-		panic("stuck waiting for DirectTransmission.Stop")
+		if i < 600 {
+			time.Sleep(200 * time.Microsecond)
+		} else {
+			time.Sleep(time.Millisecond)
+		}
 	}
 }
 
@@ -2118,7 +2182,7 @@ func (r *agentRunner) Close() {
 // agentAfterStop: bounded wait after Agent.Stop for the two loops to be gone.
 func agentAfterStop(old map[string]bool, where func() string) (hcState, usageState string) {
 	usageState = "gone"
-	deadline := time.Now().Add(250 * time.Millisecond)
+	deadline := time.Now().Add(2 * time.Second)
 	for {
 		if _, alive := findG(fnUsage, old); !alive {
 			break
@@ -2131,7 +2195,7 @@ func agentAfterStop(old map[string]bool, where func() string) (hcState, usageSta
 	}
 	hcState = "gone"
 	spinning, samples := 0, 0
-	deadline = time.Now().Add(40 * time.Millisecond)
+	deadline = time.Now().Add(time.Second)
 	for {
 		st, alive := findG(fnHC, old)
 		if !alive {
